@@ -697,6 +697,21 @@ def _pow(ex, args, n):
     return r
 
 
+FMOD = uf('fmod', R, R, R)
+
+
+@free('fmod')
+def _fmod(ex, args, n):
+    """std::fmod(x, y) = x - q*y for the integer q = trunc(x / y): same sign as x, smaller in magnitude than y"""
+    x, y = real(ex.ev(args[0])), real(ex.ev(args[1]))
+    r = FMOD(x, y)
+    q = z3.Int(ex.fresh_name('fmod_q'))
+    ex.assume(z3.Implies(y != 0, z3.And(x == z3.ToReal(q) * y + r, z3.If(y > 0, z3.And(r < y, r > -y), z3.And(r < -y, r > y)),
+                                        z3.Implies(x >= 0, r >= 0), z3.Implies(x <= 0, r <= 0))))
+    ex.assumed.add('libm: fmod(x, y) = x - trunc(x / y) * y')
+    return r
+
+
 @free('atan2')
 def _atan2(ex, args, n):
     y, x = real(ex.ev(args[0])), real(ex.ev(args[1]))
@@ -1094,6 +1109,28 @@ def _sort(ex, args, n):
                                         z3.Exists([w], z3.And(0 <= w, w < v.len, z3.Select(nd, k) == z3.Select(v.data, w))))))
     ex.write(p, VecVal(v.len, nd, v.el))
     ex.assumed.add('std::sort: result is a non-decreasing rearrangement of the range (PERM uninterpreted)')
+    return None
+
+
+@free('nth_element')
+def _nth_element(ex, args, n):
+    """std::nth_element(first, nth, last) over reals: a rearrangement in which nothing before nth exceeds the element at nth and
+    nothing after it is smaller (nothing else is promised about the order on either side)"""
+    a, m, b = ex.ev(args[0]), ex.ev(args[1]), ex.ev(args[2])
+    if not all(isinstance(t, PtrVal) and t.path is not None and t.path.same(a.path) for t in (a, m, b)) or len(args) > 3:
+        raise Unsupported('std::nth_element over this range / with comparator')
+    p, v = _vec_at(ex, a.path)
+    if v.el[0] != 'real':
+        raise Unsupported('std::nth_element element type')
+    ex.oblige('bounds', 'range', z3.And(a.off == 0, b.off == v.len, 0 <= m.off, m.off <= v.len), n)
+    nd = z3.Const(ex.fresh_name('nth'), v.data.sort())
+    i = z3.Int(ex.fresh_name('i!ne'))
+    w = z3.Int(ex.fresh_name('w!ne'))
+    ex.assume(z3.Implies(m.off < v.len, z3.ForAll([i], z3.Implies(z3.And(0 <= i, i < v.len), z3.If(i < m.off, z3.Select(nd, i) <= z3.Select(nd, m.off), z3.Select(nd, i) >= z3.Select(nd, m.off))))))
+    ex.assume(PERM(nd, v.data, v.len))
+    ex.assume(z3.ForAll([i], z3.Implies(z3.And(0 <= i, i < v.len), z3.Exists([w], z3.And(0 <= w, w < v.len, z3.Select(nd, i) == z3.Select(v.data, w))))))
+    ex.write(p, VecVal(v.len, nd, v.el))
+    ex.assumed.add('std::nth_element: a rearrangement partitioned around the element at nth (PERM uninterpreted)')
     return None
 
 
